@@ -195,8 +195,60 @@ def h_global_linear(env, n=2):
     env.equal("default_buffers", r2[0], res[0] - r0[0])
 
 
+def h_kernel_evaluator(env, kern, n=2, nctrl=2, chunk=None):
+    """the Python KernelEvaluator against the abstract evaluator contract, through the real (symbolic) kernels:
+    it ADDS f = sum_a k(x, x_a) alpha_a and df/dx into pre-filled buffers, also across its internal chunk loop"""
+    xe, K = env.m.xc_evaluator, env.m.kernels
+    nf = 2
+    X1 = env.arr("X1", (n, nf), lo="-4", hi="4")
+    Xc = env.arr("Xc", (nctrl, nf), lo="-4", hi="4")
+    al = env.arr("alpha", (nctrl,), lo="-4", hi="4")
+    r0, d0 = env.arr("r0", (n,)), env.arr("d0", (n, nf))
+    ls = env.arr("l", (nf,), "pos", lo="1/8", hi="8")
+    if kern == "rbf":
+        k = K.DiffRBF(length_scale=ls)
+    elif kern == "const*rbf":
+        k = K.DiffConstantKernel(env.par("c", "pos", hi="8")) * K.DiffRBF(length_scale=ls)
+    else:
+        k = K.DiffPolyKernel(gamma=ls, order=2)
+    ev = xe.KernelEvaluator(k, Xc.copy(), al.copy())
+    res, dres = r0.copy(), d0.copy()
+    ev(X1.copy(), res, dres)
+    kk = k(X1.copy(), Xc.copy())
+    for g in range(n):
+        f = sum((kk[g, a] * al[a] for a in range(nctrl)), env.const(0))
+        env.equal("adds_kernel_sum_%d" % g, res[g] - r0[g], f)
+        for i in range(nf):
+            env.deriv("adds_gradient_%d_%d" % (g, i), f, ("X1", (g, i)), dres[g, i] - d0[g, i])
+    r2, d2 = ev(X1.copy())
+    for g in range(n):
+        env.equal("default_buffers_value_%d" % g, r2[g], res[g] - r0[g])
+        for i in range(nf):
+            env.equal("default_buffers_grad_%d_%d" % (g, i), d2[g, i], dres[g, i] - d0[g, i])
+    env.attempt("shape_mismatch_rejected", lambda: ev(X1.copy(), env.zeros((n + 1,)), dres), expect=ValueError)
+
+
+def h_two_concrete_evals(env, order):
+    """two concrete evaluators accumulating into the shared f/df buffers of a real MappedDFTKernel, in both orders"""
+    xe, K, bl, td = env.m.xc_evaluator, env.m.kernels, env.m.baselines, env.m.td
+    X = env.arr("X", (1, 3, 1), "pos", lo="1/8", hi="8")
+    env.eps_zero()
+    fl = td.FeatureList([td.UMap(1, env.par("g0", "pos", hi="8")), td.UMap(2, env.par("g1", "pos", hi="8"))])
+    kev = xe.KernelEvaluator(K.DiffRBF(length_scale=env.arr("l", (2,), "pos", lo="1/8", hi="8")), env.arr("Xc", (2, 2), lo="0", hi="1"), env.arr("alpha", (2,), lo="-2", hi="2"))
+    lev = xe.GlobalLinearEvaluator(env.arr("c", (2,), lo="-2", hi="2"))
+    evs = [kev, lev] if order == "kernel,linear" else [lev, kev]
+    mk = xe.MappedDFTKernel(evs, fl, "SEP", bl.lda_x, bl.zero_xc)
+    res, dres = mk(X.copy())
+    for i in range(3):
+        env.deriv("dres_x%d" % i, res[0], ("X", (0, i, 0)), dres[0, i, 0])
+
+
 def tasks(tier):
     out = []
+    for kern in ("rbf", "const*rbf", "poly"):
+        out.append(Task("kernel_evaluator/%s" % kern, h_kernel_evaluator, dict(kern=kern), mods="kernels"))
+    for order in ("kernel,linear", "linear,kernel"):
+        out.append(Task("two_concrete_evaluators/%s" % order, h_two_concrete_evals, dict(order=order), mods="kernels"))
     for mode in ("SEP", "NPOL", "POL"):
         for nspin in (1, 2):
             out.append(Task("kernel1/%s/nspin%d" % (mode, nspin), h_kernel1, dict(mode=mode, nspin=nspin), max_paths=64))
@@ -227,7 +279,7 @@ def tasks(tier):
 
 def prepare(tier):
     m = sym_mods()
-    m.td, m.fn, m.settings, m.baselines, m.xc_evaluator, m.xc_evaluator2
+    m.td, m.fn, m.settings, m.baselines, m.xc_evaluator, m.xc_evaluator2, m.kernels
     # every key of BASELINE_CODES must be covered by a task
     keys = set(m.baselines.BASELINE_CODES)
     have = {"RHO", "ZERO", "ONE", "LDA_X", "NLDA_X_DAMP", "GGA_X_PBE", "GGA_X_CHACHIYO", "GGA_C_PBE"}
